@@ -26,7 +26,7 @@ def holds (s : St) (t : Nat) : Lock → Prop
 /-- the lock that label `a` of thread `t` acquires in state `s` -/
 def wants (s : St) (t : Nat) : Act → Option Lock
   | .meterNew | .meterGet => some .prov
-  | .mk m _ | .reg m | .regBad m => some (.meter m)
+  | .mk m _ | .reg m | .regBad m | .regPartial m => some (.meter m)
   | .unregTake r | .oUnregLock r => some (.reg r)
   | .unregCall => match s.frame t with
     | .unregTaken r .closure => some (.meter (s.rMeter r))
@@ -44,6 +44,7 @@ def wants (s : St) (t : Nat) : Act → Option Lock
     | _ => none
   | _ => none
 
+set_option maxHeartbeats 1600000 in
 /-- **Lock-rank lemma** (current code): whenever a thread acquires a lock, every lock it already holds has a
 strictly smaller rank (providerMtx < meterMtx < unregMu). -/
 theorem lock_rank {s s' : St} {t : Nat} {a : Act} {l l' : Lock} (hr : Reachable false s)
